@@ -39,6 +39,9 @@ pub fn run(repo: &str, header_wasm: Option<&str>) -> Result<()> {
         let g2 = format!("(module (import \"{}\" \"{}\" (func{} (param i64){})) (memory 1))", provider_module, i.name, params, results);
         if accepts(&g2) { wrong_sig_accepted.push(i.name.clone()); } else { wrong_sig_rejected.push(i.name.clone()); }
     }
+    // which `_<public name>` imports does the tool let through? (each must be something the provider exports)
+    let mut lowlevel_accepted = vec![];
+    for i in &imps { let n = format!("_{}", i.name); if accepts(&format!("(module (import \"{}\" \"{}\" (func)) (memory 1))", provider_module, n)) { lowlevel_accepted.push(n); } }
     let unknown_rejected = !accepts(&format!("(module (import \"{}\" \"shopify_function_not_an_api_function\" (func)) (memory 1))", provider_module));
     let empty_name_rejected = !accepts(&format!("(module (import \"{}\" \"\" (func)) (memory 1))", provider_module));
     let other_version_rejected = !accepts("(module (import \"shopify_function_v1\" \"shopify_function_input_get\" (func (result i64))) (memory 1))")
@@ -54,7 +57,7 @@ pub fn run(repo: &str, header_wasm: Option<&str>) -> Result<()> {
         "trampoline_module": provider_module,
         "trampoline_accepts": accepted, "trampoline_rejects_wrong_sig": wrong_sig_rejected, "trampoline_accepts_wrong_sig": wrong_sig_accepted,
         "unknown_rejected": unknown_rejected, "empty_name_rejected": empty_name_rejected, "other_version_rejected": other_version_rejected, "two_memories_rejected": two_memories_rejected,
-        "trampoline_emits": emitted, "trampoline_memory_imports": d.mem_imports,
+        "trampoline_accepts_lowlevel": lowlevel_accepted, "trampoline_emits": emitted, "trampoline_memory_imports": d.mem_imports,
     });
     if let Some(h) = header_wasm { let b = std::fs::read(h)?; j["header"] = json!(func_imports(&b)?.into_iter().map(|(m, n, s)| json!([m, n, s])).collect::<Vec<_>>()); }
     let checked_in = format!("{}/api/src/test_data/header_test.wasm", repo);
